@@ -127,7 +127,7 @@ def verify_unit_worker(qualname: str) -> dict:
                 rec["replay"] = rp
             return rec
 
-        inner_jobs = int(os.environ.get("PYVC_INNER_JOBS", "6")) if len(r.obligations) > 40 else 1
+        inner_jobs = int(os.environ.get("PYVC_INNER_JOBS", "4")) if len(r.obligations) > 40 else 1
         out["obligations"] = fork_map(do_ob, r.obligations, inner_jobs)
         out["inner_jobs"] = inner_jobs
         # vacuity guard: the assumptions of the last obligation on every path must be satisfiable
@@ -320,7 +320,7 @@ def check_property(prop: str, tier: str, seed: int, write_baseline=False, only_u
     units = [q for q, c in reg.contracts.items() if c.file and c.verify and prop in c.props]
     if only_units:
         units = [u for u in units if u in only_units]
-    jobs = jobs or 16
+    jobs = jobs or int(os.environ.get("PYVC_JOBS", "10"))  # below the 16 cores: big units fork inner workers, and solver budgets are wall-clock
     results = []
     direct_units = list(units)
     done = set()
@@ -449,13 +449,14 @@ def check_property(prop: str, tier: str, seed: int, write_baseline=False, only_u
                 else:
                     violations.append(rec)
     # ---- report -----------------------------------------------------------------------------------
-    os.makedirs(os.path.join(VERIF, "replays"), exist_ok=True)
+    OUTDIR = os.environ.get("PYVC_OUT", VERIF)  # evidence/ and replays/ go here (scratch runs on changed trees set it)
+    os.makedirs(os.path.join(OUTDIR, "replays"), exist_ok=True)
     for k in known_hits:
         desc = next((f["desc"] for f in known if f.get("key") == k["key"]), k["note"])
         print(f"KNOWN-FINDING: property={prop} {k['key']} :: {desc}")
     exit_code = 0
     for i, v in enumerate(violations):
-        path = os.path.join(VERIF, "replays", f"{prop}_{i}.json")
+        path = os.path.join(OUTDIR, "replays", f"{prop}_{i}.json")
         json.dump({"property": prop, **v}, open(path, "w"), indent=1, default=str)
         confirmed = v.get("replay", {}).get("confirmed")
         tail = "" if confirmed else " no-failing-input-found"
@@ -511,8 +512,8 @@ def check_property(prop: str, tier: str, seed: int, write_baseline=False, only_u
         "wall_s": round(wall, 2),
         "violations": len(violations),
     }
-    os.makedirs(os.path.join(VERIF, "evidence"), exist_ok=True)
-    json.dump(ev, open(os.path.join(VERIF, "evidence", f"{prop}.json"), "w"), indent=1, default=str)
+    os.makedirs(os.path.join(OUTDIR, "evidence"), exist_ok=True)
+    json.dump(ev, open(os.path.join(OUTDIR, "evidence", f"{prop}.json"), "w"), indent=1, default=str)
     print(f"{prop}: units={len(units)} obligations={n_obl} discharged={n_dis} violations={len(violations)} known={len(known_hits)} undecided={len(undecided)} exit={exit_code} wall={wall:.1f}s")
     if write_baseline:
         for r in results:
